@@ -359,7 +359,7 @@ def run(ctx: Ctx) -> None:
     if ctx.extra.get("bool_passes_int_gate"):
         ctx.note(f"DOC-NOTE: JSON booleans pass the And(int, ...) gate of {len(ctx.extra['bool_passes_int_gate'])} parameters (bool is a subclass of int; `true` is read as 1): not compared, see DESIGN section 6")
     n = rule_dispatch(ctx)
-    ctx.floor("C05.DISPATCH", n, 9)
+    ctx.floor("C05.DISPATCH", n, 6)
     n = rule_no_mutation(ctx)
     ctx.floor("C05.NO-MUTATION", n, 15)
     rule_check_calls(ctx)
